@@ -379,7 +379,7 @@ def run_resumed(c, outdir):
         ll = ns.live_points["logL"]
         after = [pid(model, p) for p in ns.live_points]
         events.append({
-            "kind": "step", "pos": int(ns.iteration), "session": state["session"], "idx": int(i),
+            "kind": "step", "pos": int(ns.iteration), "session": state["session"], "idx": int(i), "nlive_attr": int(ns.nlive),
             "removed": pid(model, ns.nested_samples[-1]), "new": pid(model, ns.live_points[i]),
             "new_logL": float(ll[i]), "new_finP": bool(np.isfinite(ns.live_points[i]["logP"])),
             "new_inb": bool(model.in_bounds(ns.live_points[i])),
@@ -457,7 +457,12 @@ def run_resumed(c, outdir):
         for stop in list(c["resume_after"]) + [None]:
             state["stop"] = stop
             model = Gauss(c.get("dims", 2), c.get("variant"))
-            fs = FlowSampler(model, resume=not first, **kw)
+            if not first and c.get("resume_changes_settings", True):
+                # a user re-running the script with edited settings: the checkpointed run decides, not the new arguments
+                kw2 = dict(kw, nlive=c["nlive"] + 13, stopping=c.get("stopping", 0.5))
+            else:
+                kw2 = kw
+            fs = FlowSampler(model, resume=not first, **kw2)
             if not first:
                 resumed_at.append(int(fs.ns.iteration))
                 state["session"] += 1
